@@ -17,6 +17,30 @@ def _origin_kinds(f, op):
     return os_, calls, lits
 
 
+def _unfolded_sources(P, f, op, depth=3, _seen=None):
+    """[] if the operand is case-folded on its way here: inside f, or (when it is a parameter of f) in every caller that supplies it.
+    Otherwise the (function, location) pairs where an unfolded name enters."""
+    _seen = _seen or set()
+    os_, calls, _ = _origin_kinds(f, op)
+    if any(LOWER.search(x) for x in calls):
+        return []
+    args = sorted(set(o.arg for o in os_ if o.kind == "arg"))
+    if not args or f.kind == "Closure" or depth == 0 or f.key in _seen:
+        return [(f, f.loc())]
+    # every other origin must be a plain pass-through for the parameter to be the (only) source
+    if any(o.kind not in ("arg", "call", "place", "aggr") for o in os_):
+        return [(f, f.loc())]
+    callers = [(g, c2) for g in P.fns.values() if g.target == f.target for c2 in g.calls if f.key in P.callee_keys(g, c2)]
+    if not callers:
+        return [(f, f.loc())]
+    out = []
+    for g, c2 in callers:
+        for a in args:
+            if a - 1 < len(c2.args):
+                out += [(h, loc if h is not g else c2.loc()) for h, loc in _unfolded_sources(P, g, c2.args[a - 1], depth - 1, _seen | {f.key})]
+    return out
+
+
 def run(R):
     P = R.prog
     R.rule("C20.case", "every lookup of a keyword, function, aggregate, type or modifier name (static-table lookups, ValueType::from_str, "
@@ -60,18 +84,25 @@ def run(R):
                 continue
             n += 1
             key = "%s|%s" % (owner.spath, site)
-            folded = False
+            unfolded = []
             for op in var_ops:
-                _, calls, _ = _origin_kinds(f, op)
-                if any(LOWER.search(x) for x in calls):
-                    folded = True
-            if folded:
-                R.ok("C20.case", key, "operand passes through to_lowercase", c.loc())
+                unfolded += _unfolded_sources(P, f, op)
+            what = {"lookup": "a static-table lookup", "type-name": "ValueType::from_str", "literal-compare": "a comparison with a literal"}[site]
+            if not unfolded:
+                R.ok("C20.case", key, "operand passes through to_lowercase (in this function or in every caller that supplies it)", c.loc())
             else:
-                R.violation("C20.case", key,
-                            "%s in %s is applied to a name that was not case-folded: the statement's meaning depends on letter case "
-                            "(e.g. `x::INT`, `SPLIT`)" % ({"lookup": "a static-table lookup", "type-name": "ValueType::from_str",
-                                                           "literal-compare": "a comparison with a literal"}[site], owner.path), [c.loc()])
+                seen_k = set()
+                for g, loc in unfolded:
+                    og = g
+                    while og.kind == "Closure" and og.parent_key in P.fns:
+                        og = P.fns[og.parent_key]
+                    k2 = key if og.key == owner.key else "%s|%s<-%s" % (owner.spath, site, og.spath.split("::")[-1])
+                    if k2 in seen_k:
+                        continue
+                    seen_k.add(k2)
+                    R.violation("C20.case", k2,
+                                "%s in %s is applied to a name that %s supplies without case-folding: the statement's meaning depends on letter "
+                                "case (e.g. `x::INT`, `SPLIT`)" % (what, owner.path, og.path), [loc, c.loc()])
     # match on &str literals is lowered to str == comparisons as well; floor counted on the pinned tree
     R.floor("C20.case", 15)
     # ---- clause loop
